@@ -105,10 +105,29 @@ def run(ctx):
     for c in cases:
         ctx.distinct.add((c[3], c[4]))
     ctx.oblige('reference evaluator available for every case (driver built, AST readable)', 'suite', drv_ok and not any(k.startswith('spec-BAD') for k in stats), str(stats))
+    # executions with the host COMPACTING the data object between steps (BasicGarnishData::optimize at every step boundary, once at
+    # each boundary, twice in a row): the programs are calls that push every kind of frame cell (with / without pending operands, at
+    # top level and nested); the run must end with the value and the stack depths of the run without compaction
+    if not ctx.replay:
+        from gen import optgen
+        base_ = [c for c in optgen.run_base_cases() if int(c[1][3:].split('.')[0]) >= 24]
+        bres_ = vlib.run_impl(base_, 'c01_optbase', per_case_s=10.0)
+        rc_ = [c for c in optgen.gen_run_cases(optgen.steps_of(bres_)) if int(c[1][3:].split('.')[0]) >= 24 and ('.k' in c[1] or '.every' in c[1] or '.twice' in c[1])]
+        ri_ = vlib.run_impl(rc_, 'c01_optrun', per_case_s=10.0)
+        nrun_ = 0
+        for c in rc_:
+            nrun_ += 1
+            ctx.distinct.add(('compaction', c[3], c[5]))
+            f_ = optgen.oracle_detail(c, ri_.get(c[1], 'MISSING'))
+            if f_:
+                cls_ = '; '.join(str(x[0]) if isinstance(x, (list, tuple)) else str(x) for x in f_[:3])
+                ctx.fail('oracle', c, impl=ri_.get(c[1], '')[:400], model=None, expect='the result and stack depths of the run without compaction', note=f'with the data object compacted between steps ({c[5]}) the program {vlib.unesc(c[3])!r} no longer computes its value: {cls_}')
+        ctx.evaluations += len(rc_)
+        ctx.suites = dict(ctx.suites or {}, **{'OPT.run (compaction between steps, call shapes)': nrun_})
     ctx.rule = ('PROG cases: every AST of the core language with <= %d operator nodes over a reduced constructor set (exhaustive) every ordered pair of operators (inner operator in every operand position of the outer one, all inputs) and random ASTs of depth <= 4 over all constructs, printed with minimal parentheses according to the language table, '
                 'x {SimpleGarnishData, BasicGarnishData} x initial input values {unit, 0, 5, keyed list, pair, text} x scripted hosts; each lexed, parsed, built and executed to completion by the real code and compared with the Lean reference evaluator evalF on the AST '
                 '(value up to expression-table indices, host-call trace); distinct = distinct (source, input).' % (1 if ctx.tier == 'quick' else 2))
-    ctx.suites = {'PROG': len(cases), 'outcomes': stats}
+    ctx.suites = dict(ctx.suites or {}, **{'PROG': len(cases), 'outcomes': stats})
     if progs:
         ctx.distribution = progsuite.feature_distribution(progs)
     for c in cases[:: max(1, len(cases) // 6)][:6]:
